@@ -66,8 +66,7 @@ def listStim [LE α] [DecidableLE α] (T : α) (xs : List α) : List α :=
 def rewritePrimes (marker : List Char) (s : List Char) : List Char :=
   s.flatMap (fun c => if c = '\'' then marker else [c])
 
-/-- `set(stimulus["variables"])`: distinct names; iteration order = first occurrence (any order
-gives the same map up to the order of keys; see `fromJson_key_train`) -/
+/-- `dict.fromkeys(stimulus["variables"])`: distinct names in the order given (first occurrence) -/
 def distinct : List (List Char) → List (List Char)
   | [] => []
   | x :: xs => x :: (distinct xs).filter (· ≠ x)
